@@ -174,7 +174,7 @@ def stepCore (s : CS) (e : Ev) : Option CS :=
   -- one reconnect task serves all fault reports: a new one is only started when none is alive
   | .reconnStart => guard (s.reconn = 0 && s.faults > 0) { s with reconn := 1, reconnSlept := false, reconnCalled := false }
   -- … it waits at least as long as the first retry of connect() does …
-  | .reconnSleep ms => guard (s.reconn = 1 && !s.reconnSlept && 500 ≤ ms) { s with reconnSlept := true }
+  | .reconnSleep ms => guard (s.reconn = 1 && 500 ≤ ms) { s with reconnSlept := true }     -- (it waits again when a new fault was reported during its wait)
   -- … and only then calls connect(); every further call (connect() returned at once because another call held the lock, and the
   -- client is still DISCONNECTED) needs a wait of its own …
   | .reconnCall => guard (s.reconn = 1 && s.reconnSlept) { s with calls := s.calls + 1, reconnCalled := true, reconnSlept := false }
@@ -191,7 +191,7 @@ def stepCore (s : CS) (e : Ev) : Option CS :=
            (match s.conn with | some c => s.writerClosed.contains c | none => true))
       { s with closeReturned := true }
   | .cfgWrite c => guard (s.okConn = some c && s.conn = some c) s
-  | .cfgFail c => guard (s.okConn = some c && s.connActive && s.st ≠ .connected) { s with okConn := none, lastFailed := true, slept := false }   -- (the configuration is written before CONNECTED is reported)
+  | .cfgFail c => guard (s.okConn = some c && s.connActive && s.st ≠ .connected) { s with okConn := none, lastFailed := true, slept := false, faulted := c :: s.faulted }   -- (the configuration is written before CONNECTED is reported)
   | .envFeed _ => some s
   | .envEof c => some (if s.conn = some c then { s with faults := s.faults + 1, faulted := c :: s.faulted } else s)
   | .envReadErr c => some (if s.conn = some c then { s with faults := s.faults + 1, faulted := c :: s.faulted } else s)
